@@ -851,6 +851,30 @@ func (g *Gen) havocLoc(st *State, env *Env, e *SExpr) {
 			}
 			return
 		}
+		if e.Name == "mapcontents" { // mapcontents(m): the entries of map m become arbitrary; other maps keep theirs
+			m := g.eval(env, e.Args[0])
+			if m.T == nil {
+				unsup("modifies mapcontents(): untyped map")
+			}
+			has, vp, vt := g.mapArrays(st, m.T)
+			oldH := g.heapSym(st.heap, has)
+			nwH := g.fresh(has, "(Array Int (Array Int Bool))")
+			g.emit("(assert " + eq(nwH, sto(oldH, m.S, g.fresh("havoc_maphas", "(Array Int Bool)"))) + ")")
+			st.heap.m[has] = nwH
+			if kindOf(vt) != KStruct && kindOf(vt) != KArray {
+				sfx, kinds := leafComps(vt)
+				for i, sf := range sfx {
+					name := vp + sf
+					srt := "(Array Int (Array Int " + sortOfKind(kinds[i]) + "))"
+					g.setHeapSort(name, srt)
+					old := g.heapSym(st.heap, name)
+					nw := g.fresh(name, srt)
+					g.emit("(assert " + eq(nw, sto(old, m.S, g.fresh("havoc_mapval", "(Array Int "+sortOfKind(kinds[i])+")"))) + ")")
+					st.heap.m[name] = nw
+				}
+			}
+			return
+		}
 		if e.Name == "all" { // all(T.f): field f of every object of struct type T becomes arbitrary
 			sel := e.Args[0]
 			if sel.Op != "sel" || sel.Args[0].Op != "ident" {
